@@ -101,3 +101,13 @@ Theorem C04_replace_trees : forall s,
   chk_C04 s (api_tree s []) = 0.
 Proof. exact ProvReplaceTables.replace_chk_C04. Qed.
 Print Assumptions C04_replace_trees.
+
+(* trees with CachedSource nodes (none below a ReplaceSource: the checker's domain), after ANY
+   warm-up calls: all clauses of the checker hold of the model; hypotheses on the input only *)
+From RS Require Proofs.ColdCache Proofs.BoundsPos Proofs.ChkMoreProvWarmTables.
+Theorem C04_trees_with_caches : forall s ws,
+  ColdCache.ids_distinct s -> c04_domain s = true ->
+  ProvReplaceBytes.pshape (ColdCache.uncache s) = true -> BoundsPos.tiny (ColdCache.uncache s) = true ->
+  csmall (ColdCache.uncache s) = true -> chk_C04 s (api_tree s ws) = 0.
+Proof. exact ChkMoreProvWarmTables.C04_warm_checker. Qed.
+Print Assumptions C04_trees_with_caches.
